@@ -63,6 +63,9 @@ def run_entry(profile, features, entry, repo=None):
         records.extend(loop_entry(I, entry))
     elif entry == "stamp":
         records.extend(stamp_entry(I))
+    elif entry == "iters":
+        from . import itertables
+        records.extend(itertables.iters_entry(I))
     elif entry in ("free_node", "clear"):
         records.extend(freelist_entry(I, entry))
     elif entry in ("detach", "remove"):
